@@ -927,6 +927,17 @@ impl CatalogPersistence {
             catalog_offset
         );
 
+        let file_len = file
+            .metadata()
+            .wrap_err("failed to read catalog file size")?
+            .len();
+        ensure!(
+            catalog_length as u64 <= file_len.saturating_sub(HEADER_SIZE as u64),
+            "catalog length {} exceeds the {} bytes of the file",
+            catalog_length,
+            file_len
+        );
+
         let mut catalog_bytes = vec![0u8; catalog_length];
         file.read_exact(&mut catalog_bytes)
             .wrap_err("failed to read catalog data")?;
